@@ -55,15 +55,23 @@ Definition I3b s : bool := forallb (psd_okb s) (edges_l (roots s)).
 (* W: the representation is sane: containers list layers; every allocated id occurs; ids are allocated *)
 Definition kinds_ok s (e : Z * Z) : Prop := is_container s (fst e) = true /\ is_layer s (snd e) = true.
 Definition kinds_okb s (e : Z * Z) : bool := is_container s (fst e) && is_layer s (snd e).
+Definition parent_alloc s (i : Z) : Prop :=
+  match oparent (objs s i) with Some p => 0 <= p < next s | None => True end.
+Definition parent_allocb s (i : Z) : bool :=
+  match oparent (objs s i) with Some p => (0 <=? p) && (p <? next s) | None => true end.
 Definition W s : Prop :=
   Forall (kinds_ok s) (edges_l (roots s))
   /\ (forall i, In i (ids_l (roots s)) <-> 0 <= i < next s)
-  /\ corrupt s = false.
+  /\ corrupt s = false
+  /\ Forall (parent_alloc s) (all_ids s)
+  /\ 0 <= next s.
 Definition Wb s : bool :=
   forallb (kinds_okb s) (edges_l (roots s))
   && forallb (fun i => (0 <=? i) && (i <? next s)) (ids_l (roots s))
   && forallb (fun i => memz i (ids_l (roots s))) (all_ids s)
-  && negb (corrupt s).
+  && negb (corrupt s)
+  && forallb (parent_allocb s) (all_ids s)
+  && (0 <=? next s).
 
 Definition Inv s : Prop := I1 s /\ I2 s /\ I3 s /\ W s.
 Definition Invb s : bool := I1b s && I2b s && I3b s && Wb s.
@@ -117,12 +125,15 @@ Proof.
   unfold Wb, W. rewrite !andb_true_iff, negb_true_iff.
   rewrite (forallb_Forall_iff (kinds_okb s) (kinds_ok s)).
   2:{ intro e. unfold kinds_okb, kinds_ok. apply andb_true_iff. }
-  rewrite !forallb_forall. split.
-  - intros [[[H1 H2] H3] H4]. repeat split; try assumption.
+  rewrite (forallb_Forall_iff (parent_allocb s) (parent_alloc s)).
+  2:{ intro i. unfold parent_allocb, parent_alloc. destruct (oparent (objs s i)); [|tauto].
+      rewrite andb_true_iff, Z.leb_le, Z.ltb_lt. tauto. }
+  rewrite !forallb_forall, Z.leb_le. split.
+  - intros [[[[[H1 H2] H3] H4] H5] H6]. repeat split; try assumption.
     + apply H2 in H. lia.
     + apply H2 in H. lia.
     + intros H. apply memz_In. apply H3. apply all_ids_In. exact H.
-  - intros [H1 [H2 H3]]. repeat split; try assumption.
+  - intros [H1 [H2 [H3 [H4 H5]]]]. repeat split; try assumption.
     + intros i Hi. apply H2 in Hi. lia.
     + intros i Hi. apply memz_In. apply H2. apply all_ids_In. exact Hi.
 Qed.
